@@ -1,3 +1,4 @@
-import SkVerif.Drv.C03
+import SkVerif.Drv.C10
 import SkVerif.Drv.Loop
-def main : IO Unit := SkVerif.Drv.runLoop "C03" SkVerif.Drv.C03.handle
+-- C03 shares the forecaster machine with C10; `SkVerif.Drv.C10.handle` adds the `pirun` op and falls back to `SkVerif.Drv.C03.handle`
+def main : IO Unit := SkVerif.Drv.runLoop "C03" SkVerif.Drv.C10.handle
